@@ -26,6 +26,7 @@ import (
 )
 
 type conf struct {
+	gated  bool // park the first merge task (public event callback) and let the following operations land while it is in flight
 	name   string
 	disk   bool
 	scorch bool
@@ -36,7 +37,17 @@ type conf struct {
 }
 
 func (c conf) open(dir string, create bool) (bleve.Index, error) {
+	return c.openWith(dir, create, "")
+}
+
+func (c conf) openWith(dir string, create bool, callback string) (bleve.Index, error) {
 	cfg := bx.CopyConfig(c.cfg) // bleve writes into the config map: never share it between instances
+	if callback != "" {
+		if cfg == nil {
+			cfg = map[string]interface{}{}
+		}
+		cfg["eventCallbackName"] = callback
+	}
 	if !c.disk {
 		return bleve.NewUsing("", bleve.NewIndexMapping(), c.itype, c.kv, cfg)
 	}
@@ -60,6 +71,7 @@ func confs(quick bool) []conf {
 		{name: "scorch-disk-nomerge", disk: true, scorch: true, itype: scorch.Name, kv: scorch.Name, cfg: cfgWith("scorchMergePlanOptions", bx.NoMergePlan)},
 		{name: "scorch-disk-aggressive", disk: true, scorch: true, itype: scorch.Name, kv: scorch.Name, cfg: cfgWith("scorchMergePlanOptions", bx.AggressiveMergePlan)},
 		{name: "scorch-disk-partial-merge", disk: true, scorch: true, itype: scorch.Name, kv: scorch.Name, cfg: cfgWith("scorchMergePlanOptions", bx.PartialMergePlan)},
+		{name: "scorch-disk-merge-gated", gated: true, disk: true, scorch: true, itype: scorch.Name, kv: scorch.Name, cfg: cfgWith("scorchMergePlanOptions", bx.AggressiveMergePlan)},
 		{name: "scorch-disk-unsafe-2workers", disk: true, scorch: true, unsafe: true, itype: scorch.Name, kv: scorch.Name,
 			cfg: cfgWith("unsafe_batch", true, "scorchPersisterOptions", map[string]interface{}{"NumPersisterWorkers": 2, "MaxSizeInMemoryMergePerWorker": 1})},
 		{name: "upsidedown-gtreap", itype: upsidedown.Name, kv: gtreap.Name},
@@ -100,7 +112,7 @@ func partialAlphabet() []op {
 	I := func(id string, v int) lww.Op { return lww.Op{Kind: "I", ID: id, V: v} }
 	D := func(id string) lww.Op { return lww.Op{Kind: "D", ID: id} }
 	bs := []lww.Batch{
-		{I("a", 1), I("b", 1), I("c", 1)}, {I("a", 2)}, {I("d", 1)}, {I("b", 2)}, {D("b")}, {I("c", 2), D("d")}, {I("zz", 1)},
+		{I("a", 1), I("b", 1), I("c", 1)}, {I("a", 2)}, {I("d", 1)}, {I("b", 2)}, {D("b")}, {I("c", 2), D("d")}, {I("zz", 1)}, {I("d", 2), I("never", 1)},
 	}
 	var ops []op
 	for _, b := range bs {
@@ -157,7 +169,7 @@ func Run(r *mc.Run) {
 			d = depth - 1 // quick tier: on-disk variants one level shallower
 		}
 		cops := ops
-		if c.name == "scorch-disk-partial-merge" {
+		if c.name == "scorch-disk-partial-merge" || c.gated {
 			cops, d = partialAlphabet(), depth+1
 		}
 		t0 := time.Now()
@@ -196,16 +208,29 @@ func execPath(r *mc.Run, c conf, ops []op, path []int, rep map[string]any) (stri
 		defer os.RemoveAll(dir)
 		dir = dir + "/idx"
 	}
-	idx, err := c.open(dir, true)
+	var g *bx.MergeGate
+	cb := ""
+	if c.gated {
+		g = bx.AcquireGate()
+		cb = g.Name()
+		defer g.Free()
+	}
+	idx, err := c.openWith(dir, true, cb)
 	if err != nil {
 		r.Violation("open:"+c.name, fmt.Sprintf("%v: create failed: %v", rep, err), rep)
 		return "", false
 	}
 	defer func() {
+		if g != nil {
+			g.Release() // a parked merger must be released before Close
+		}
 		if idx != nil {
 			idx.Close()
 		}
 	}()
+	if g != nil {
+		g.Arm()
+	}
 	m := lww.New()
 	lastKind := "init"
 	for si, oi := range path {
@@ -236,12 +261,15 @@ func execPath(r *mc.Run, c conf, ops []op, path []int, rep map[string]any) (stri
 				r.Cap("unsafe-batch index did not persist within 10s before a reopen; path skipped")
 				return "", false
 			}
+			if g != nil {
+				g.Release()
+			}
 			if err := idx.Close(); err != nil {
 				r.Violation("close-error:"+c.name, fmt.Sprintf("%v: step %d: %v", rep, si, err), rep)
 				idx = nil
 				return "", false
 			}
-			idx, err = c.open(dir, false)
+			idx, err = c.openWith(dir, false, cb)
 			if err != nil {
 				idx = nil
 				r.Violation("reopen-error:"+c.name, fmt.Sprintf("%v: step %d: %v", rep, si, err), rep)
@@ -249,9 +277,25 @@ func execPath(r *mc.Run, c conf, ops []op, path []int, rep map[string]any) (stri
 			}
 			lastKind = "reopen"
 		}
-		if c.disk && c.scorch {
+		switch {
+		case g != nil && !g.IsParked():
+			g.WaitParkedOrQuiet(idx, 2*time.Second)
+		case g != nil:
+			bx.Persisted(idx, 2*time.Second) // a merge is parked: later operations land while it is in flight
+		case c.disk && c.scorch:
 			bx.Quiesce(idx, 2*time.Second)
 		}
+	}
+	if g != nil && g.IsParked() {
+		// observe the state while the merge is still in flight, then let it be introduced
+		r.Eval(1)
+		r.Count("histories_observed_with_a_merge_in_flight", 1)
+		if bad := m.Check(idx, ids, keys); len(bad) > 0 {
+			r.Violation(fmt.Sprintf("lww:%s:while-merge-in-flight", c.name), fmt.Sprintf("%v: %s", rep, strings.Join(bad, "; ")), rep)
+		}
+		g.Release()
+		bx.Quiesce(idx, 2*time.Second)
+		lastKind += "+merge-introduced-afterwards"
 	}
 	r.Eval(1)
 	if bad := m.Check(idx, ids, keys); len(bad) > 0 {
